@@ -32,9 +32,10 @@ type World struct {
 
 	GOOS, GOARCH string
 
-	allFuncs  map[*ssa.Function]bool
-	modFuncs  []*ssa.Function // functions (incl. anonymous and methods) defined in module packages
-	funcDecls map[*types.Func]*ast.FuncDecl
+	allFuncs   map[*ssa.Function]bool
+	modFuncs   []*ssa.Function // functions (incl. anonymous and methods) defined in module packages
+	funcDecls  map[*types.Func]*ast.FuncDecl
+	fieldOwner map[*types.Var]string
 }
 
 // anchorError is raised (via panic) when a construct a rule is anchored on cannot be found. It stops the check
@@ -49,6 +50,12 @@ func anchorFail(format string, args ...any) {
 
 func loadWorld(repo, goos, goarch string) (*World, error) {
 	env := os.Environ()
+	// go/packages runs the `go` found on PATH; the repository needs go >= 1.24 and only go1.26.8 is installed
+	// beside the default toolchain, so put it first (GOTOOLCHAIN=local keeps it from switching).
+	if _, err := os.Stat("/opt/veriftools/go1.26.8/bin/go"); err == nil && !strings.HasPrefix(os.Getenv("PATH"), "/opt/veriftools/go1.26.8/bin:") {
+		os.Setenv("PATH", "/opt/veriftools/go1.26.8/bin:"+os.Getenv("PATH")) // exec.LookPath uses this process's PATH
+		env = os.Environ()
+	}
 	env = append(env, "GOFLAGS=-mod=mod", "GOPROXY=off", "GOWORK=off", "GOSUMDB=off", "GOTOOLCHAIN=local", "CGO_ENABLED=0")
 	if goos != "" {
 		env = append(env, "GOOS="+goos)
@@ -202,6 +209,29 @@ func (w *World) Pos(p token.Pos) string {
 	return fmt.Sprintf("%s:%d", rel, pos.Line)
 }
 
+// InstrPos gives a position for an instruction, falling back to the nearest earlier instruction of its block (or
+// the function) when the instruction itself has none (implicit returns, synthesized jumps).
+func (w *World) InstrPos(in ssa.Instruction) string {
+	if in.Pos().IsValid() {
+		return w.Pos(in.Pos())
+	}
+	b := in.Block()
+	idx := instrIndex(in)
+	for i := idx - 1; i >= 0; i-- {
+		if b.Instrs[i].Pos().IsValid() {
+			return w.Pos(b.Instrs[i].Pos())
+		}
+	}
+	for d := b.Idom(); d != nil; d = d.Idom() {
+		for i := len(d.Instrs) - 1; i >= 0; i-- {
+			if d.Instrs[i].Pos().IsValid() {
+				return w.Pos(d.Instrs[i].Pos())
+			}
+		}
+	}
+	return w.Pos(in.Parent().Pos())
+}
+
 // ---- anchors ---------------------------------------------------------------------------------------------
 
 // NamedType returns the named type pkg.name or fails the anchor.
@@ -336,6 +366,31 @@ func (w *World) MethodsOf(recv string) []*ssa.Function {
 	}
 	sort.Slice(out, func(i, j int) bool { return out[i].Name() < out[j].Name() })
 	return out
+}
+
+// FieldOwner names the struct type declaring field f ("Route.mws").
+func (w *World) FieldOwner(f *types.Var) string {
+	if w.fieldOwner == nil {
+		w.fieldOwner = map[*types.Var]string{}
+		for _, p := range w.Pkgs {
+			sc := p.Types.Scope()
+			for _, n := range sc.Names() {
+				tn, ok := sc.Lookup(n).(*types.TypeName)
+				if !ok {
+					continue
+				}
+				if st, ok := tn.Type().Underlying().(*types.Struct); ok {
+					for i := 0; i < st.NumFields(); i++ {
+						w.fieldOwner[st.Field(i)] = tn.Name() + "." + st.Field(i).Name()
+					}
+				}
+			}
+		}
+	}
+	if s, ok := w.fieldOwner[f]; ok {
+		return s
+	}
+	return f.Name()
 }
 
 // Decl returns the syntax of a declared function.
